@@ -252,3 +252,89 @@ def r14_stash(ctx, rule='R14s'):
                                  'the stashed source error is not re-raised after inference')
     run.floor(rule, n, 1, 'stashed exceptions')
     return n
+
+
+# ---------------------------------------------------------------------- R14m: iteration drivers that swallow StopIteration
+
+SI_DRIVERS = {'builtins.map', 'builtins.filter', 'itertools.starmap', 'itertools.takewhile', 'itertools.dropwhile',
+              'itertools.filterfalse', 'itertools.accumulate', 'itertools.groupby'}
+
+
+def _calls_user_callable(ctx, fi, depth=0, seen=None):
+    """Does function fi (or a repository function it calls, depth <= 2, or an override of it) call a user-supplied callable:
+    a parameter of an enclosing function, or a `self.<attr>` that is not a method?"""
+    seen = seen if seen is not None else set()
+    if fi.qualname in seen or depth > 2:
+        return None
+    seen.add(fi.qualname)
+    params = set()
+    f = fi
+    while isinstance(f, FuncInfo):
+        params |= set(f.all_params)
+        f = f.parent
+    params -= {'self', 'cls'}
+    nodes = list(ast.walk(fi.node.body)) if isinstance(fi.node, ast.Lambda) else list(own_nodes(fi.node))
+    for c in nodes:
+        if not isinstance(c, ast.Call):
+            continue
+        fn = c.func
+        if isinstance(fn, ast.Name) and fn.id in params:
+            return '%s calls its parameter %s' % (fi.qualname, fn.id)
+        p = pseudo(fn)
+        if p and p.startswith('self.') and isinstance(fn, ast.Attribute):
+            cls = ctx.repo.enclosing_class(c)
+            if cls is not None and ctx.res.lookup_method(cls, fn.attr) is None:
+                return '%s calls the stored callable %s' % (fi.qualname, p)
+        for t in ctx.res.resolve_call(c):
+            if isinstance(t, FuncInfo):
+                r = _calls_user_callable(ctx, t, depth + 1, seen)
+                if r:
+                    return r
+    return None
+
+
+def r14_stopiteration_drivers(ctx, rule='R14m'):
+    """map()/filter()/starmap()... drive a callable from C: a StopIteration raised inside the callable propagates as the
+    driver's own StopIteration and the consumer takes it for the end of the stream.  A generator frame (for-loop with yield,
+    generator expression) converts it into RuntimeError instead (PEP 479)."""
+    run = ctx.run
+    run.rule(rule, 'NO-SILENT-STOP: no row stream is driven through map / filter / starmap / takewhile ... with a callable that is '
+                   '(or reaches) a user-supplied function: a StopIteration raised by it would end the stream silently instead of '
+                   'failing the run (generator frames turn it into RuntimeError, PEP 479)')
+    n = 0
+    for m in ctx.repo.modules.values():
+        if m.name == 'dataflows.cli':
+            continue
+        for c in ast.walk(m.tree):
+            if not (isinstance(c, ast.Call) and ctx.res.external_name(c) in SI_DRIVERS and c.args):
+                continue
+            n += 1
+            fn = c.args[0] if ctx.res.external_name(c) not in ('itertools.accumulate', 'itertools.groupby') else \
+                (c.args[1] if len(c.args) > 1 else next((k.value for k in c.keywords if k.arg in ('func', 'key')), None))
+            if fn is None:
+                run.ok(rule, where(ctx.repo, c), u(c)[:100], 'no callable')
+                continue
+            why = None
+            fi = ctx.repo.enclosing_func(c)
+            params = set()
+            f = fi
+            while isinstance(f, FuncInfo):
+                params |= set(f.all_params)
+                f = f.parent
+            if isinstance(fn, ast.Name) and fn.id in params - {'self', 'cls'}:
+                why = 'the callable is the parameter %s' % fn.id
+            elif isinstance(fn, ast.Lambda):
+                why = _calls_user_callable(ctx, ctx.repo.func_of_node[id(fn)])
+            else:
+                p = pseudo(fn)
+                tg = ctx.res._resolve_callee(fn, m, fi)
+                fis = [t for t in tg if isinstance(t, FuncInfo)]
+                if p and p.startswith('self.') and not fis:
+                    why = 'the callable is the stored attribute %s' % p
+                for t in fis:
+                    why = why or _calls_user_callable(ctx, t)
+            run.check(why is None, rule, where(ctx.repo, c), fq(ctx.repo, c), c,
+                      'a stream is driven by %s with a callable that can run user code (%s): a StopIteration raised there is '
+                      'taken for the end of the stream, the run returns normally with rows missing'
+                      % (ctx.res.external_name(c).split('.')[-1], why))
+    return n
